@@ -28,8 +28,8 @@ THEOREMS = [
     'C17_args_exact', 'C17_tx_exact', 'C17_belief_sound', 'C17_sent_exact',
     'C17_unknown_db_sends_all', 'C17_keys_sound',
 ]
-REFUTED = ['C17_falsy_refuted', 'C17_partial_sync_refuted', 'C17_status2_refuted',
-           'C17_belief_refuted']
+REFUTED = ['C17_status2_refuted', 'C17_status2_args_refuted', 'C17_belief_refuted', 'C17_full_refuted',
+           'C17_falsy_refuted', 'C17_partial_sync_refuted']
 IMPL = os.path.join(lib.VERIF, 'harness', 'impl', 'c17_impl.py')
 FIELDS = ('us', 'gs', 'rc', 'dc', 'sc')          # order of the op / of the observation
 MAPF = ('rc', 'dc', 'sc')
@@ -491,6 +491,13 @@ def run(tier):
         tm[k] = round(time.time() - t0[0], 1)
         t0[0] = time.time()
     pf = lib.proof_stage(rep, 'C17', THEOREMS, extra_targets=['theories/C17/Refuted.vo'], thorough=thorough)
+    rok, rproved, rlog = lib.coq_props('C17', 'Refuted.v') if pf['ok'] else (False, {}, '')
+    for t in REFUTED:
+        if rproved.get(t) != []:
+            pf['ok'] = False
+            pf['broken'].append(f'{t}: refutation witness does not check (Refuted.v)')
+    rep.coverage['refuted_theorems'] = {t: ('closed under the global context' if rproved.get(t) == [] else 'NOT CHECKED')
+                                        for t in REFUTED}
     exe, blog = lib.build_model('c17', 'ExtractC17.v', 'c17_main.ml', 'C17_ext')
     known = {k['id']: k for k in lib.known_findings(PROP)}
     lap('proof+build')
@@ -499,6 +506,9 @@ def run(tier):
     hs = [c[0] for c in cases]
     lines = [enc(h) for h in hs]
     lap('generate')
+    from concurrent.futures import ThreadPoolExecutor
+    mt_pool = ThreadPoolExecutor(1)
+    mt_future = mt_pool.submit(run_mt, tier, rep, known)       # multi-tenant path runs alongside
     impl = run_impl(lines)
     lap('impl')
     model = lib.run_model(exe, lines) if exe else None
@@ -515,13 +525,22 @@ def run(tier):
         for (i, k, t, c) in monitor(h, its):
             mon.append((ci, i, k, t, c))
     mism = []
+    clean = [False] * len(lines)
     if model is not None:
         mism = [i for i, (a, b) in enumerate(zip(impl, model)) if strip_flags(a) != b]
+        p = subprocess.run([exe, '--clean'], input='\n'.join(lines) + '\n', capture_output=True, text=True)
+        clean = [x == '1' for x in p.stdout.split('\n')[:len(lines)]]
+    # a history satisfying the hypothesis of C17_args_exact / _tx_exact / _belief_sound must not
+    # fail ANY monitor on the real code (known finding or not)
+    for k, m in enumerate(mon):
+        if clean[m[0]] and m[4] is not None:
+            mon[k] = (m[0], m[1], m[2], m[3] + ' [history satisfies clean_hist: the theorems exclude this]', None)
 
     lap('monitors')
     # ---- multi-tenant path: monitors only
-    mt = run_mt(tier, rep, known)
-    lap('multitenant')
+    mt = mt_future.result()
+    mt_pool.shutdown()
+    lap('multitenant(wait)')
 
     # ---- Coq-internal evaluation of a sample (guards extraction)
     coq_diff, n_coq = [], 0
@@ -542,7 +561,7 @@ def run(tier):
 
     lap('coq_eval')
     # ---- refutation witnesses replayed on the real code
-    wit = replay_witnesses()
+    wit = replay_witnesses(exe)
     lap('witnesses')
 
     # ---- verdict
@@ -551,9 +570,17 @@ def run(tier):
     by_id = {}
     for m in explained:
         by_id.setdefault(m[4], []).append(m)
-    for fid, ms in by_id.items():
-        ci = min(ms, key=lambda m: len(lines[m[0]]))[0]
-        rep.known_finding(fid, known[fid].get('what', '') + f' ({len({m[0] for m in ms})} generated histories hit it, e.g. {lines[ci]})')
+    for fid in sorted(set(by_id) | set(mt['known'])):
+        ms = by_id.get(fid, [])
+        txt = known[fid].get('what', '')
+        if ms:
+            ci = min(ms, key=lambda m: len(lines[m[0]]))[0]
+            txt += f' ({len({m[0] for m in ms})} generated histories hit it, e.g. {lines[ci]})'
+        if fid in mt['known']:
+            txt += f' (multi-tenant path: {len(set(mt["known"][fid]))} histories, e.g. {min(mt["known"][fid], key=len)})'
+        rep.known_finding(fid, txt)
+    for what, payload, found in mt['violations']:
+        rep.violation(what, payload, found)
     seen_kinds = set()
     for m in sorted(unexplained, key=lambda m: len(lines[m[0]])):
         key = (m[2], m[4])
@@ -565,16 +592,15 @@ def run(tier):
         so = one_impl(small)
         sf = [x for x in monitor(small, items_of(small, so) or []) if x[1] == kind and x[3] == cause]
         rep.violation(f'monitor {kind} failed on the real compiler pool: {sf[0][2] if sf else text}'
-                      + (f' [matches proposed known finding {cause}, not present in known_findings.json]' if cause else ''),
+                      + (f' [this is the defect {cause}, which is not an accepted known finding: '
+                         + ('it was repaired in /repo and has RETURNED]' if cause in (KF_FALSY, KF_PARTIAL) else 'not in known_findings.json]') if cause else ''),
                       {'case': enc(small), 'original_case': lines[ci], 'failing_request_index': sf[0][0] if sf else i,
                        'impl_result': so, 'model_result': lib.run_model(exe, [enc(small)])[0] if exe else None,
                        'proposed_known_finding': cause,
                        'how': f'echo "<case>" | PYTHONPATH={lib.REPO}:/verif/harness /venv/bin/python harness/impl/c17_impl.py {lib.REPO} st'})
         if len(seen_kinds) >= 4:
             break
-    for w in wit:
-        if not w['reproduced']:
-            rep.notes.append(f'witness {w["name"]} of Refuted.v is NOT reproduced by the real code: {w["impl"]}')
+    wit_bad = [w for w in wit if w['real_code_violates'] != w['expected_on_real_code'] or w['model_variant_violates'] is False]
     if not unexplained and not mt['unexplained']:
         if model is None:
             rep.violation('model does not build: ' + blog[-1500:], {'broken': 'extraction of theories/C17/Model.v'}, False)
@@ -591,6 +617,12 @@ def run(tier):
         if coq_diff:
             rep.violation('extracted model disagrees with vm_compute inside Coq',
                           {'broken': 'extraction', 'case': lines[coq_diff[0]]}, False)
+        if wit_bad:
+            w = wit_bad[0]
+            rep.violation(f'refutation witness {w["name"]}: real code violates={w["real_code_violates"]} '
+                          f'(expected {w["expected_on_real_code"]}), model variant {w["model_variant"]} '
+                          f'violates={w["model_variant_violates"]}', {'case': w['history'], 'broken': 'Refuted.v witness vs real code',
+                                                                    'impl_result': w['impl']}, False)
         if not pf['ok']:
             rep.violation('proof obligations no longer check: ' + '; '.join(pf['broken'][:6]),
                           {'broken': pf['broken'], 'log_tail': pf['log'][-3000:]}, False)
@@ -633,6 +665,8 @@ def run(tier):
         'exhaustive_subspaces': ['depth-2 request sequences over the defect alphabet'] + (['depth-3'] if thorough else []),
         'samples': [lines[i] for i in (0, len(lines) // 3, len(lines) // 2, len(lines) - 1)],
         'traces_validated_against_impl': len(cases) if model is not None else 0,
+        'histories_satisfying_clean_hist (hypothesis of the theorems)': sum(clean),
+        'clean_histories_nontrivial': len({l for l, h, c in zip(lines, hs, clean) if c and nontrivial(h)}),
         'requests_compared': sum(len(h) for h in hs),
         'model_vs_impl_disagreements': len(mism),
         'coq_vm_compute_cross_checked': n_coq,
@@ -663,35 +697,281 @@ def run(tier):
         'one request at a time per worker (WorkerQueue hands a worker to one holder); which worker serves is arbitrary',
         'objects are immutable: identity determines content and truthiness (bytes, immutables.Map)',
         'the server never supplies None for a state value (histories with None are only compared with the model)',
-        'C17_args_exact / C17_belief_sound: no falsy (empty) object, faults restricted to request lost / unpickle failure of a '
-        'per-database field / compiler exception; C17_noreturn_args_exact: any fault, any truthiness, callers that never return to an earlier object',
+        'C17_args_exact / C17_tx_exact / C17_belief_sound: every fault placement except a status-2 reply to compile*; '
+        'every value (also empty maps) except None',
     ]
     return rep.finish()
 
 
 # ---------------------------------------------------------------- refutation witnesses
+# name -> (history, failing request index, monitor kind, model variant "fx1 fx2" of which it is a witness,
+#          must the real (pinned) code reproduce it?)
 WITNESSES = {
-    'C17_falsy_refuted': ('R 1 4 6 1:2:8:10 ; C 1 sq 1 2 4 8 100 6 n ; C 1 sq 1 2 4 8 10 6 n', 2, 'args'),
-    'C17_partial_sync_refuted': ('R 1 4 6 1:2:8:10 ; C 1 sq 1 12 14 8 10 6 u2 ; C 1 sq 1 2 4 8 10 6 n', 2, 'args'),
-    'C17_status2_refuted': ('R 1 4 6 1:2:8:10 ; C 1 c1 1 2 4 8 10 6 n ; C 1 c1 1 2 4 8 10 6 r ; T 1 1 2 2 n', 3, 'tx-state'),
+    'C17_status2_refuted': ('R 1 4 6 1:2:8:10 ; C 1 c1 1 2 4 8 10 6 n ; C 1 c1 1 2 4 8 10 6 r ; T 1 1 2 2 n', 3, 'tx-state', '1 1', True),
+    'C17_status2_args_refuted': ('R 1 4 6 1:2:8:10 ; C 1 sq 1 2 4 8 20 6 r ; C 1 sq 1 2 4 8 10 6 n', 2, 'args', '1 1', True),
+    'C17_falsy_refuted': ('R 1 4 6 1:2:8:10 ; C 1 sq 1 2 4 8 100 6 n ; C 1 sq 1 2 4 8 10 6 n', 2, 'args', '0 1', False),
+    'C17_partial_sync_refuted': ('R 1 4 6 1:2:8:10 ; C 1 sq 1 12 14 8 10 6 u2 ; C 1 sq 1 2 4 8 10 6 n', 2, 'args', '1 0', False),
 }
 
 
-def replay_witnesses():
+def replay_witnesses(exe):
     out = []
     res = run_impl([w[0] for w in WITNESSES.values()])
-    for (name, (line, idx, kind)), o in zip(WITNESSES.items(), res):
+    for (name, (line, idx, kind, variant, expect)), o in zip(WITNESSES.items(), res):
         h = dec(line)
         its = items_of(h, o)
         fl = monitor(h, its) if its else []
         ok = any(i == idx and k == kind for i, k, _, _ in fl)
-        out.append({'name': name, 'history': line, 'reproduced': ok, 'impl': o})
+        mv = None
+        if exe:
+            p = subprocess.run([exe, '--variant', *variant.split()], input=line + '\n', capture_output=True, text=True)
+            mo = p.stdout.strip()
+            mits = items_of(h, mo)
+            mv = any(i == idx and k == kind for i, k, _, _ in (monitor(h, mits) if mits else []))
+        out.append({'name': name, 'history': line, 'model_variant': variant, 'model_variant_violates': mv,
+                    'real_code_violates': ok, 'expected_on_real_code': expect, 'impl': o})
     return out
 
 
 # ---------------------------------------------------------------- multi tenant (monitors only)
+# ('R', w) | ('C', [w..], cid, m, db, us, gs, rc, dc, sc, f) | ('T', [w..], cid, db, us, ps, f) | ('D', cid)
+
+def enc_mt(h):
+    out = []
+    for o in h:
+        if o[0] == 'R':
+            out.append(f'R {o[1]}')
+        elif o[0] == 'D':
+            out.append(f'D {o[1]}')
+        else:
+            out.append(o[0] + ' ' + ','.join(map(str, o[1])) + ' ' + ' '.join(map(str, o[2:])))
+    return ' ; '.join(out)
+
+
+def dec_mt(line):
+    h = []
+    for part in line.split(';'):
+        p = part.split()
+        if not p:
+            continue
+        if p[0] in ('R', 'D'):
+            h.append((p[0], int(p[1])))
+        elif p[0] == 'C':
+            h.append(('C', [int(x) for x in p[1].split(',')], int(p[2]), p[3], *[int(x) for x in p[4:10]], p[10]))
+        else:
+            h.append(('T', [int(x) for x in p[1].split(',')], *[int(x) for x in p[2:6]], p[6]))
+    return h
+
+
+def gen_mt(r, maxlen=22):
+    """1-2 multi-tenant workers (cache_size 2), 2-3 tenants with their own databases and objects"""
+    nw = r.choice((1, 2, 2))
+    tenants = {cid: Server(r, r.choice((1, 2)), r.random() < 0.4, r.choice((0, 0.15, 0.3)))
+               for cid in r.sample((7, 8, 9), r.choice((2, 3)))}
+    p_fault = r.choice((0, 0.1, 0.3))
+    h = [('R', w) for w in range(1, nw + 1)]
+    txs = []
+    n = r.randint(3, maxlen)
+    while len(h) < n + nw:
+        k = r.random()
+        cid = r.choice(list(tenants))
+        srv = tenants[cid]
+        if k < 0.3:
+            srv.mutate()
+            continue
+        f = r.choice(FAULTS) if r.random() < p_fault else 'n'
+        pos = len(h) + 1
+        ws = list(range(1, nw + 1))
+        r.shuffle(ws)
+        avail = ws[:r.randint(1, nw)]
+        if k < 0.7:
+            db = r.choice(list(srv.dbs))
+            d = srv.dbs[db]
+            m = r.choice(METHS)
+            h.append(('C', avail, cid, m, db, d['us'], srv.gs, d['rc'], d['dc'], srv.sc, f))
+            if m == 'c1' and f == 'n' and r.random() < 0.8:
+                txs.append([cid, db, d['us'], pos])
+                if len(txs) > 3:
+                    txs.pop(0)
+        elif k < 0.92 and txs:
+            t = r.choice(txs)
+            h.append(('T', avail, t[0], t[1], t[2], t[3], f))
+            if f == 'n':
+                t[3] = pos
+        elif k < 0.96:
+            h.append(('R', r.randint(1, nw)))
+        elif k >= 0.96:
+            h.append(('D', cid))
+            txs = [t for t in txs if t[0] != cid]
+    return h
+
+
+def monitor_mt(h, items):
+    """args-exact / tx-exact / belief-sound on the multi-tenant path.  Tenants that the server has
+    marked for invalidation on a worker are not part of its belief (pending until the next
+    acknowledged transfer)."""
+    fails = []
+    taint = {}
+    dropped = set()
+    for i, (o, it) in enumerate(zip(h, items)):
+        if o[0] == 'D':
+            continue
+        if it.get('res') in ('nw', None):
+            continue
+        w = it.get('w')
+        d = it.get('dump')
+        if o[0] == 'R':
+            for k in [k for k in taint if k[0] == w]:
+                del taint[k]
+            continue
+        for fl in it.get('flags', []):
+            fails.append((i, 'internal', fl, None))
+        cid = o[2]
+        if o[0] == 'C' and it['obs'].startswith('C'):
+            seen = [int(x) for x in it['obs'][1:].split(',')]
+            want = [cont0(x) for x in o[5:10]]
+            for fn, a, b in zip(FIELDS, seen, want):
+                if a != b:
+                    scope = (cid, fn) if fn in ('gs', 'sc') else (cid, o[4], fn)
+                    cause = taint.get((w, scope), (None,))[0]
+                    fails.append((i, 'args', f'tenant {cid} {fn}: compiler entered with content {a}, request supplied '
+                                  f'object {o[5 + FIELDS.index(fn)]} of content {b}', cause))
+        if o[0] == 'T' and it['obs'].startswith('T'):
+            sid, root = (int(x) for x in it['obs'][1:].split(','))
+            sent = it.get('sent') or {}
+            if sid != o[5]:
+                cause = taint.get((w, 'last'), (None,))[0]
+                fails.append((i, 'tx-state', f'compile_in_tx entered with state {sid}, request supplied state {o[5]}', cause))
+            elif not sent.get('reuse') and root != cont0(o[4]):
+                cause = taint.get((w, (cid, o[3], 'us')), (None,))[0]
+                fails.append((i, 'tx-root', f'compile_in_tx root user schema content {root}, request supplied '
+                              f'object {o[4]} of content {cont0(o[4])}', cause))
+        if d is None:
+            fails.append((i, 'internal', 'no state dump', None))
+            continue
+        div = []
+        for c, ts in d['srv'].items():
+            if ts['pending_invalidation']:
+                continue
+            wk = d['wk'].get(c)
+            if wk is None:
+                div.append(((int(c), 'gs'), f'server believes worker has tenant {c}, worker does not'))
+                continue
+            if cont0(ts['gs']) != wk['gs']:
+                div.append(((int(c), 'gs'), f'tenant {c} global schema: believed object {ts["gs"]}, worker content {wk["gs"]}'))
+            if cont0(ts['sc']) != wk['sc']:
+                div.append(((int(c), 'sc'), f'tenant {c} system config: believed object {ts["sc"]}, worker content {wk["sc"]}'))
+            for db, tri in ts['dbs'].items():
+                wd = wk['dbs'].get(db)
+                if wd is None:
+                    div.append(((int(c), int(db), 'us'), f'server believes worker has tenant {c} database {db}, worker does not'))
+                    continue
+                for fn, a, b in zip(('us', 'rc', 'dc'), tri, wd):
+                    if cont0(a) != b:
+                        div.append(((int(c), int(db), fn), f'tenant {c} db {db} {fn}: believed object {a} (content {cont0(a)}), worker content {b}'))
+        if d['blast'] != 0 and (d['wlast'] is None or d['wlast'][0] != d['blast']):
+            div.append(('last', f'server believes LAST_STATE is state {d["blast"]}, worker holds {d["wlast"]}'))
+        now = {s for s, _ in div}
+        for k in [k for k in taint if k[0] == w and k[1] not in now]:
+            del taint[k]
+        for scope, text in div:
+            if (w, scope) in taint:
+                continue
+            cause = None
+            if o[0] == 'C' and o[-1] == 'r' and it['res'] == 'Ereply' and (scope == 'last' or scope[0] == cid):
+                cause = KF_STATUS2
+            taint[(w, scope)] = (cause, i)
+            fails.append((i, 'belief', text, cause))
+    return fails
+
+
+def mt_pred(kind, cause):
+    import json as _j
+
+    def p(hs):
+        outs = run_impl([enc_mt(h) for h in hs], 'mt')
+        res = []
+        for h, out in zip(hs, outs):
+            try:
+                its = _j.loads(out)
+            except ValueError:
+                res.append(False)
+                continue
+            res.append(len(its) == len(h) and any(k == kind and c == cause for _, k, _, c in monitor_mt(h, its)))
+        return res
+    return p
+
+
+def shrink_mt(h, pred_many):
+    changed = True
+    while changed and len(h) > 1:
+        changed = False
+        cands = [h[:i] + h[i + 1:] for i in range(len(h) - 1, -1, -1)]
+        for c, ok in zip(cands, pred_many(cands)):
+            if ok:
+                h = c
+                changed = True
+                break
+    return h
+
+
 def run_mt(tier, rep, known):
-    return {'unexplained': [], 'coverage': 'not run'}
+    r = lib.rng('C17mt')
+    n = 4000 if tier == 'quick' else 40000
+    hs = [gen_mt(r) for _ in range(n)]
+    fixed = ['R 1 ; C 1 7 sq 1 2 4 8 10 6 n ; C 1 7 sq 1 2 4 8 100 6 n ; C 1 7 sq 1 2 4 8 10 6 n',
+             'R 1 ; C 1 7 c1 1 2 4 8 10 6 n ; C 1 7 sq 1 12 14 8 10 6 u2 ; T 1 7 1 2 2 n',
+             'R 1 ; C 1 7 sq 1 2 4 8 10 6 n ; C 1 8 sq 1 2 4 8 10 6 n ; C 1 9 sq 1 2 4 8 10 6 u4 ; C 1 7 sq 1 2 4 8 10 6 n']
+    hs = [dec_mt(x) for x in fixed] + hs
+    lines = [enc_mt(h) for h in hs]
+    outs = run_impl(lines, 'mt')
+    mon = []
+    bad = 0
+    kinds = {}
+    for ci, (h, out) in enumerate(zip(hs, outs)):
+        try:
+            its = json.loads(out)
+            assert len(its) == len(h)
+        except Exception:
+            bad += 1
+            continue
+        for it in its:
+            k = (it.get('res') or '?').split(':')[0]
+            kinds[k] = kinds.get(k, 0) + 1
+        for (i, k, t, c) in monitor_mt(h, its):
+            mon.append((ci, i, k, t, c))
+    unexplained = [m for m in mon if m[4] is None or m[4] not in known]
+    explained = [m for m in mon if m[4] is not None and m[4] in known]
+    mt_known = {}
+    for m in explained:
+        mt_known.setdefault(m[4], []).append(lines[m[0]])
+    viol = []
+    seen = set()
+    for m in sorted(unexplained, key=lambda m: len(lines[m[0]])):
+        if (m[2], m[4]) in seen:
+            continue
+        seen.add((m[2], m[4]))
+        small = shrink_mt(hs[m[0]], mt_pred(m[2], m[4]))
+        so = run_impl([enc_mt(small)], 'mt')[0]
+        sf = [x for x in monitor_mt(small, json.loads(so)) if x[1] == m[2] and x[3] == m[4]]
+        viol.append((f'monitor {m[2]} failed on the real MULTI-TENANT compiler pool: {sf[0][2] if sf else m[3]}',
+                      {'case': enc_mt(small), 'mode': 'mt', 'original_case': lines[m[0]],
+                       'failing_request_index': sf[0][0] if sf else m[1], 'impl_result': so,
+                       'how': f'echo "<case>" | PYTHONPATH={lib.REPO}:/verif/harness /venv/bin/python harness/impl/c17_impl.py {lib.REPO} mt'}, True))
+        if len(seen) >= 2:
+            break
+    if bad:
+        viol.append(('multi-tenant harness output not parseable', {'cases': bad}, False))
+    monk = {}
+    for m in mon:
+        monk[f'{m[2]}:{m[4]}'] = monk.get(f'{m[2]}:{m[4]}', 0) + 1
+    ndist = len({l for l, h in zip(lines, hs) if len({o[2] for o in h if o[0] in ('C', 'T')}) >= 2 and len(h) >= 4})
+    return {'unexplained': unexplained, 'violations': viol, 'known': mt_known,
+            'coverage': {'histories': len(hs), 'requests': sum(len(h) for h in hs),
+                         'distinct_with_two_tenants_and_4_requests': ndist, 'reply_kinds': kinds,
+                         'monitor_failures_by_kind_and_cause': monk, 'sample': lines[len(lines) // 2],
+                         'note': 'MultiTenantPool._compute_compile_preargs / sync_worker_state_cb / compile_in_tx / '
+                                 '_weighter / drop_tenant + multitenant_worker.py; monitors only'}}
 
 
 def replay(path):
@@ -702,6 +982,10 @@ def replay(path):
     print('case :', case)
     out = run_impl([case], mode)[0]
     print('impl :', out)
+    if mode == 'mt':
+        h = dec_mt(case)
+        for i, k, t, c in monitor_mt(h, json.loads(out)):
+            print(f'monitor: request #{i} [{k}] {t}' + (f'  (cause: {c})' if c else ''))
     if mode == 'st':
         print('model:', lib.run_model(exe, [case])[0] if exe else 'model does not build')
         h = dec(case)
